@@ -223,11 +223,11 @@ class Composite(Datum):
             merge_state.update(
                 deep_copy_internal(composite.get('state', {})))
 
-        deep_merge(merge_processes, processes)
-        deep_merge(merge_topology, topology)
-        deep_merge(merge_steps, steps)
-        deep_merge(merge_flow, flow)
-        deep_merge(merge_state, state)
+        deep_merge(merge_processes, deep_copy_internal(processes))
+        deep_merge(merge_topology, deep_copy_internal(topology))
+        deep_merge(merge_steps, deep_copy_internal(steps))
+        deep_merge(merge_flow, deep_copy_internal(flow))
+        deep_merge(merge_state, deep_copy_internal(state))
         merge_processes = assoc_in({}, path, merge_processes)
         merge_topology = assoc_in({}, path, merge_topology)
         merge_steps = assoc_in({}, path, merge_steps)
